@@ -82,6 +82,7 @@ package ingest
 //@   requires implies(o.baseOK && o.started, ghostf("fpos", o.base) >= 0 && o.baseID == b6.VerifFeatID(o.base, ghostf("fpos", o.base)))
 //@   requires implies(!o.started, ghostf("fpos", o.base) == -1)
 //@   modifies *o
+//@   ghavoc fpos o.base
 //@   loop 1 invariant old(o.baseOK) && o.baseOK && o.base != nil && o.filter != nil && o.started == old(o.started) && o.overlayOK == old(o.overlayOK) && o.overlayID == old(o.overlayID) && o.overlay == old(o.overlay) && o.base == old(o.base) && o.filter == old(o.filter)
 //@   loop 1 invariant ghostf("fpos", o.overlay) == old(ghostf("fpos", o.overlay)) && ghostf("fpos", o.base) >= old(ghostf("fpos", o.base))
 //@   loop 1 invariant implies(o.baseOK && ghostf("fpos", o.base) >= 0, o.baseID == b6.VerifFeatID(o.base, ghostf("fpos", o.base)))
